@@ -11,7 +11,7 @@ THOROUGH_EXTRA_SEEDS = 2
 # the repository\'s own tests, recorded by harness/harvest_plugin.py, judged by the same trace specification
 ALSO = {"quick": [], "thorough": ["harness.props.hv13"]}
 REQUIRED = ["Normalize", "pd-none", "pd-yes", "pd-no", "d2s-none", "d2s-yes", "d2s-no", "via-accessor", "via-function",
-            "data-reversed", "attr-withheld", "with-bounds", "two-depth-coordinates", "two-coordinates-one-dimension", "sediment-depth-coordinates",
+            "data-reversed", "attr-withheld", "with-bounds", "saved-after-normalisation", "Save", "two-depth-coordinates", "two-coordinates-one-dimension", "sediment-depth-coordinates",
             "cf1d", "cf2d", "shoc_simple", "shoc_standard", "arakawa", "ugrid"]
 RULE = ("one case = one dataset (every convention) with one or two depth coordinates (2-6 levels, positive up / down, deep-to-"
         "shallow / shallow-to-deep, positive attribute present or withheld, with / without bounds, dimension coordinate or not) "
